@@ -44,10 +44,10 @@ class SimulationAlgorithmGraphBase
     std::uniform_real_distribution<double> uiud;     // floating point uniform distribution in [0,1[
 
 
-    int Poisson(double lambda)
+    long long Poisson(double lambda)
         {
         if(lambda <= 0) return 0; // std::poisson_distribution requires a positive mean
-        return std::poisson_distribution<int>(lambda)(rng);
+        return std::poisson_distribution<long long>(lambda)(rng); // a mean beyond the range of int never returns with <int>
         }
 
     void SetNeighbors(
